@@ -2,7 +2,8 @@
     payment operation moves the hold by exactly the change of what the exchange records require
     to be reserved, splits keep the held total, and no hold ever exceeds the balance.
     Only theorem statements here; each is closed by [exact] of a lemma proved in
-    Proofs/HoldsProofs.v about the model Exchange/Holds.v.
+    Proofs/HoldsProofs.v, HoldsMulti.v, HoldsWf.v, HoldsMultiWf.v, HoldsExact.v (hold movement)
+    and HoldsAdmit.v (admission) about the model Exchange/Holds.v.
 
     Where a theorem speaks about every state [s] it assumes the one well-formedness fact the chain
     itself maintains: no stored order id exceeds the last id handed out (GenesisState.Validate
@@ -11,7 +12,8 @@
     every operation ([C02_ids_ok_preserved]). *)
 From Coq Require Import ZArith List Bool.
 Import ListNotations.
-From PV Require Import Exchange.Holds Proofs.HoldsProofs.
+From PV Require Import Exchange.Holds Proofs.HoldsProofs Proofs.HoldsMulti Proofs.HoldsWf
+  Proofs.HoldsMultiWf Proofs.HoldsExact Proofs.HoldsAdmit.
 Open Scope Z_scope.
 
 (** Order.Split: both parts keep the owner, the unfilled part keeps the market, and per denom the
@@ -50,7 +52,81 @@ Theorem C02_inv_reachable : forall s0 ops,
 Proof. exact inv_reachable. Qed.
 Print Assumptions C02_inv_reachable.
 
-(*ITEM_DELTA*)
+(** ** "changes the hold by exactly that item's reserved amount"
+
+    [reserved_delta s o a d] is read off the exchange records of the state BEFORE the operation and
+    the operation's own arguments only (never off the hold store): + the hold amount of the order
+    / commitment / payment created; - the hold amounts of the orders cancelled, of the orders
+    filled in full and of the FILLED part of the split of the partially filled one; - the amounts
+    released entry by entry from commitments (a zero amount = what is left of that account's
+    commitment at that point); for a commitment settlement + outputs - inputs - fees per account;
+    - the source amounts of the payments accepted / rejected / cancelled (reject-all: every
+    payment of every distinct listed source that names the target); close market: - every order
+    of the market - every commitment to it.
+
+    Every operation except reject-all and close-market: in EVERY state (no hypothesis). *)
+Theorem C02_reserved_delta_exact_any_state : forall s o s' a d,
+  needs_wf o = false -> step s o = (s', ROk) ->
+  hold_of s' a d - hold_of s a d = reserved_delta s o a d.
+Proof. exact delta_exact_nowf. Qed.
+Print Assumptions C02_reserved_delta_exact_any_state.
+
+(** Every operation, including reject-all and close-market, in every state whose stores are KV
+    stores (distinct keys), whose records carry valid amounts (no negative entry; a commitment
+    has distinct denoms), and whose records are covered by the holds (otherwise close-market
+    SKIPS the items whose release fails and reject-all could hit a shadowed duplicate key). *)
+Theorem C02_reserved_delta_exact : forall s o s' a d,
+  NoDup (map fst (orders s)) /\ NoDup (map fst (commits s)) /\ NoDup (map fst (pays s)) ->
+  (forall e, In e (orders s) -> coins_nonneg (order_hold (snd e)) = true) /\
+  (forall e, In e (commits s) -> NoDup (map fst (snd e)) /\ coins_nonneg (snd e) = true) /\
+  (forall e, In e (pays s) -> coins_nonneg (p_samt (snd e)) = true) ->
+  (forall a d, required s a d <= hold_of s a d) ->
+  step s o = (s', ROk) ->
+  hold_of s' a d - hold_of s a d = reserved_delta s o a d.
+Proof. exact (fun s o s' a d Hkv Hrec => delta_exact s o s' a d (conj Hkv Hrec)). Qed.
+Print Assumptions C02_reserved_delta_exact.
+
+(** Those hypotheses are kept by every operation ... *)
+Theorem C02_wf_preserved : forall s o,
+  (NoDup (map fst (orders s)) /\ NoDup (map fst (commits s)) /\ NoDup (map fst (pays s))) /\
+  ((forall e, In e (orders s) -> coins_nonneg (order_hold (snd e)) = true) /\
+   (forall e, In e (commits s) -> NoDup (map fst (snd e)) /\ coins_nonneg (snd e) = true) /\
+   (forall e, In e (pays s) -> coins_nonneg (p_samt (snd e)) = true)) ->
+  let s' := fst (step s o) in
+  (NoDup (map fst (orders s')) /\ NoDup (map fst (commits s')) /\ NoDup (map fst (pays s'))) /\
+  ((forall e, In e (orders s') -> coins_nonneg (order_hold (snd e)) = true) /\
+   (forall e, In e (commits s') -> NoDup (map fst (snd e)) /\ coins_nonneg (snd e) = true) /\
+   (forall e, In e (pays s') -> coins_nonneg (p_samt (snd e)) = true)).
+Proof. exact wf_step. Qed.
+Print Assumptions C02_wf_preserved.
+
+(** ... so over ALL histories from a well-formed start whose holds cover its records (in particular
+    an exact start, or an accepted genesis): every accepted operation, at any point of the history,
+    moves the hold of every account and denom by exactly the reserved amount of its item(s). *)
+Theorem C02_reserved_delta_exact_history : forall s0 ops o s' a d,
+  (NoDup (map fst (orders s0)) /\ NoDup (map fst (commits s0)) /\ NoDup (map fst (pays s0))) /\
+  ((forall e, In e (orders s0) -> coins_nonneg (order_hold (snd e)) = true) /\
+   (forall e, In e (commits s0) -> NoDup (map fst (snd e)) /\ coins_nonneg (snd e) = true) /\
+   (forall e, In e (pays s0) -> coins_nonneg (p_samt (snd e)) = true)) ->
+  (forall id, In id (map fst (orders s0)) -> id <= last_id s0) ->
+  (forall a d, required s0 a d <= hold_of s0 a d) ->
+  step (run s0 ops) o = (s', ROk) ->
+  hold_of s' a d - hold_of (run s0 ops) a d = reserved_delta (run s0 ops) o a d.
+Proof. exact delta_exact_history. Qed.
+Print Assumptions C02_reserved_delta_exact_history.
+
+(** When no account is listed twice, a release list's reserved amount is the simple sum read off
+    the state before: the amount named, or the account's whole commitment for a zero amount. *)
+Theorem C02_release_delta_simple : forall m a d es cs,
+  NoDup (map fst es) ->
+  (forall e, In e es -> release_split (cget (m, fst e) cs) (snd e) <> None) ->
+  release_delta m cs es a d =
+  sum_by (fun e => if fst e =? a
+                   then (if coins_is_zero (snd e) then amt_of (cget (m, fst e) cs) d else amt_of (snd e) d)
+                   else 0) es.
+Proof. exact release_delta_distinct. Qed.
+Print Assumptions C02_release_delta_simple.
+
 (** A rejected or failing operation changes nothing. *)
 Theorem C02_rejected_unchanged : forall s o s' r, step s o = (s', r) -> r <> ROk -> s' = s.
 Proof. exact rejected_unchanged. Qed.
@@ -64,6 +140,91 @@ Theorem C02_genesis_coverage : forall g s,
   (forall id, In id (map fst (orders s)) -> id <= last_id s).
 Proof. exact genesis_coverage. Qed.
 Print Assumptions C02_genesis_coverage.
+
+(** ** Genesis: what the Go check enforces, and what follows.
+
+    x/exchange InitGenesis (keeper/genesis.go) stores the orders, commitments and payments, sums
+    per account the hold amounts they need (Order.GetHoldAmount, Commitment.Amount,
+    Payment.SourceAmount, merged with Coins.Add) and panics iff for some account and some denom
+    OF THAT SUM the hold module reports LESS than the sum (holdAmt < reqAmt), or the last order id
+    is below an order id.  It never looks at denoms or accounts outside that sum and never objects
+    to MORE being on hold: it is a coverage check, not an equality check ([genesis_init]).  (The
+    hold module's own InitGenesis places each genesis hold with AddHold, i.e. requires it to be
+    spendable.)  So an imported state satisfies hold >= required, and by the next two theorems the
+    surplus hold - required of every account and denom then stays what it was FOR EVER, whatever
+    operations follow: a surplus is never released and never grows; with an exact genesis it is 0
+    and the invariant is [C02_inv_reachable]. *)
+Theorem C02_surplus_constant : forall s0 ops a d,
+  (forall id, In id (map fst (orders s0)) -> id <= last_id s0) ->
+  hold_of (run s0 ops) a d - required (run s0 ops) a d = hold_of s0 a d - required s0 a d.
+Proof. exact surplus_constant. Qed.
+Print Assumptions C02_surplus_constant.
+
+Theorem C02_genesis_surplus_forever : forall g s ops a d,
+  genesis_init g = Some s ->
+  hold_of (run s ops) a d - required (run s ops) a d = hold_of g a d - required g a d /\
+  0 <= hold_of (run s ops) a d - required (run s ops) a d.
+Proof. exact genesis_surplus_forever. Qed.
+Print Assumptions C02_genesis_surplus_forever.
+
+(** ** Admission: what the model's own refusals ([RRefused]) mean.  With [adm = true] (every check
+    outside the model passed) the model's answer is a prediction that the correspondence run
+    compares with the implementation in both directions.
+    [spendable s a d = bal_of s a d - hold_of s a d - vlock_of s a d]. *)
+
+(** AddHold on a coin list (even one that repeats a denom, as the hold amount of an ask whose flat
+    fee is in the assets denom does): admitted iff per denom the MERGED amount is spendable. *)
+Theorem C02_add_hold_iff : forall cs s a, coins_nonneg cs = true ->
+  ((exists s', add_hold s a cs = Some s') <-> forall d, 0 < amt_of cs d -> amt_of cs d <= spendable s a d).
+Proof. exact add_hold_iff. Qed.
+Print Assumptions C02_add_hold_iff.
+
+(** A new order is admitted iff it is valid and, per denom, creation fee + hold amount fits into
+    the owner's spendable balance. *)
+Theorem C02_create_order_accept_iff : forall o cfee s, coins_nonneg cfee = true ->
+  ((exists s', create_order o cfee s = Some s') <->
+   order_valid o = true /\
+   forall d, 0 < amt_of cfee d + amt_of (order_hold o) d ->
+             amt_of cfee d + amt_of (order_hold o) d <= spendable s (o_owner o) d).
+Proof. exact create_order_accept_iff. Qed.
+Print Assumptions C02_create_order_accept_iff.
+
+Theorem C02_commit_accept_iff : forall m a amount cfee s, coins_nonneg cfee = true ->
+  ((exists s', commit_funds m a amount cfee s = Some s') <->
+   coins_nonneg amount = true /\
+   forall d, 0 < amt_of cfee d + amt_of amount d -> amt_of cfee d + amt_of amount d <= spendable s a d).
+Proof. exact commit_funds_accept_iff. Qed.
+Print Assumptions C02_commit_accept_iff.
+
+Theorem C02_payment_create_accept_iff : forall src ext samt tamt target s,
+  ((exists s', pay_create src ext samt tamt target s = Some s') <->
+   coins_pos samt = true /\ coins_pos tamt = true /\ (coins_is_zero samt && coins_is_zero tamt) = false /\
+   afind k2_eqb (src, ext) (pays s) = None /\
+   forall d, 0 < amt_of samt d -> amt_of samt d <= spendable s src d).
+Proof. exact pay_create_accept_iff. Qed.
+Print Assumptions C02_payment_create_accept_iff.
+
+(** Releasing from a commitment: refused iff the amount is negative, nothing is committed, or more
+    than is committed is asked for (in some denom of the request). *)
+Theorem C02_release_accept_iff : forall cur amount,
+  (exists nr, release_split cur amount = Some nr) <->
+  coins_nonneg amount = true /\ coins_is_zero cur = false /\
+  (coins_is_zero amount = true \/ coins_geb cur amount = true).
+Proof. exact release_split_iff. Qed.
+Print Assumptions C02_release_accept_iff.
+
+(** Cancelling: in a well-formed covered state, admitted iff the order exists and the signer is
+    its owner or holds the cancel permission (the release of its hold cannot fail). *)
+Theorem C02_cancel_accept_iff : forall signer priv id s,
+  (NoDup (map fst (orders s)) /\ NoDup (map fst (commits s)) /\ NoDup (map fst (pays s))) /\
+  ((forall e, In e (orders s) -> coins_nonneg (order_hold (snd e)) = true) /\
+   (forall e, In e (commits s) -> NoDup (map fst (snd e)) /\ coins_nonneg (snd e) = true) /\
+   (forall e, In e (pays s) -> coins_nonneg (p_samt (snd e)) = true)) ->
+  (forall a d, required s a d <= hold_of s a d) ->
+  ((exists s', cancel_order_by signer priv id s = Some s') <->
+   exists o, afind Z.eqb id (orders s) = Some o /\ (signer = o_owner o \/ priv = true)).
+Proof. exact cancel_accept_iff. Qed.
+Print Assumptions C02_cancel_accept_iff.
 
 (** Non-vacuity: accounts 1 (seller), 2 (buyer), 3 (payer); denoms 10 (asset), 20 (price),
     30 (fee); market 7.  The start state has balances only, so the hypotheses of
@@ -116,3 +277,63 @@ Example C02_witness :
       (hold_of (at_ n) (fst k) (snd k) <=? bal_of (at_ n) (fst k) (snd k))) keys)
     [0; 1; 2; 3; 4; 5; 6; 7; 8; 9]%nat = true.
 Proof. vm_compute. repeat split. Qed.
+
+(** Non-vacuity of the multi-item theorems: same accounts / denoms; market 7.  The start state has
+    balances only, so it satisfies the hypotheses of [C02_reserved_delta_exact_history] (empty KV
+    stores, nothing required).  History: two asks of seller 1 and two bids of buyer 2 (one of each
+    partially fillable), a settlement filling ask 1 and bid 3 in full and 10 of bid 4's 30 assets;
+    commitments of 2 and 3; a release list naming account 2 twice (a part, then "everything");
+    a commitment settlement with an input, an output and a fee; three payments of 3 (two naming
+    1), reject-all by 1 listing source 3 twice; close market with an open order and a commitment
+    left.  Every operation is accepted, and at each multi-item step the observed hold movement on
+    the nine keys equals [reserved_delta], computed from the records before the step. *)
+Example C02_witness_multi :
+  let keys := [(1, 10); (1, 20); (1, 30); (2, 10); (2, 20); (2, 30); (3, 10); (3, 20); (3, 30)] in
+  let s0 := mk_state [] 0 [] [] []
+              [((1, 10), 100); ((1, 20), 50); ((1, 30), 40);
+               ((2, 10), 10); ((2, 20), 900); ((2, 30), 60);
+               ((3, 10), 5); ((3, 20), 300); ((3, 30), 80)] [] in
+  let ops :=
+    [ OCreate true (mk_order true 1 7 (10, 20) (20, 40) [(30, 6)] false) [];                (* 1 *)
+      OCreate true (mk_order true 1 7 (10, 30) (20, 60) [(10, 5)] false) [];                 (* 2: flat fee in the assets denom *)
+      OCreate true (mk_order false 2 7 (10, 10) (20, 20) [(30, 2)] false) [];                (* 3 *)
+      OCreate true (mk_order false 2 7 (10, 30) (20, 60) [(30, 3)] true) [];                 (* 4 *)
+      OSettle true [1; 3; 4] [1; 3] (Some (4, 10))
+        [((1, 10), -20); ((1, 20), 40); ((1, 30), -6); ((2, 10), 20); ((2, 20), -40); ((2, 30), -3)];
+      OCommit true 7 2 [(20, 100)] [];
+      OCommit true 7 3 [(20, 50); (30, 10)] [];
+      ORelease true 7 [(2, [(20, 30)]); (2, [])];
+      OCommit true 7 2 [(20, 80)] [];
+      OCommitSettle true 7 [(2, [(20, 40)])] [(3, [(20, 40)])] [(2, [(20, 5)])];
+      OPayCreate true 3 1 [(20, 25)] [] 1;
+      OPayCreate true 3 2 [(20, 15)] [(10, 1)] 1;
+      OPayCreate true 3 3 [(30, 7)] [] 2;
+      OPayRejectAll true 1 [3; 3];
+      OCloseMarket true 7 ] in
+  let at_ n := run s0 (firstn n ops) in
+  let results :=
+    fst (fold_left (fun x o => (fst x ++ [snd (step (snd x) o)], fst (step (snd x) o))) ops ([], s0)) in
+  let moved n := map (fun k => hold_of (at_ (S n)) (fst k) (snd k) - hold_of (at_ n) (fst k) (snd k)) keys in
+  let reserved n := map (fun k => reserved_delta (at_ n) (nth n ops (OManageFees false)) (fst k) (snd k)) keys in
+  (* hypotheses of C02_reserved_delta_exact_history on the start state *)
+  (orders s0 = [] /\ commits s0 = [] /\ pays s0 = []) /\
+  (forall a d, required s0 a d <= hold_of s0 a d) /\
+  results = [ROk; ROk; ROk; ROk; ROk; ROk; ROk; ROk; ROk; ROk; ROk; ROk; ROk; ROk; ROk] /\
+  (* ask 2 holds assets 30 + fee 5 in ONE denom *)
+  map (fun k => hold_of (at_ 2%nat) (fst k) (snd k)) keys = [55; 0; 6; 0; 0; 0; 0; 0; 0] /\
+  (* the settlement: ask 1 (20 + fee 6), bid 3 (20 + 2) and a third of bid 4 (20 + 1) *)
+  moved 4%nat = [-20; 0; -6; 0; -40; -3; 0; 0; 0] /\ reserved 4%nat = moved 4%nat /\
+  (* the release list: 30, then the 70 that are left *)
+  moved 7%nat = [0; 0; 0; 0; -100; 0; 0; 0; 0] /\ reserved 7%nat = moved 7%nat /\
+  (* the commitment settlement: 2 gives input 40 and fee 5, 3 receives 40 *)
+  moved 9%nat = [0; 0; 0; 0; -45; 0; 0; 40; 0] /\ reserved 9%nat = moved 9%nat /\
+  (* reject-all: the two payments of 3 that name 1 *)
+  moved 13%nat = [0; 0; 0; 0; 0; 0; 0; -40; 0] /\ reserved 13%nat = moved 13%nat /\
+  (* close market: ask 2, the rest of bid 4, the commitments of 2 and 3 *)
+  moved 14%nat = [-35; 0; 0; 0; -75; -2; 0; -90; -10] /\ reserved 14%nat = moved 14%nat /\
+  (* what is left on hold at the end: the payment of 3 to 2 *)
+  map (fun k => hold_of (at_ 15%nat) (fst k) (snd k)) keys = [0; 0; 0; 0; 0; 0; 0; 0; 7].
+Proof.
+  cbv zeta. split; [repeat split|]. split; [intros a d; vm_compute; discriminate|].
+  vm_compute. repeat split.
+Qed.
